@@ -1,4 +1,4 @@
-HOOK_COMMITS = ["27ad88b", "955c941", "4436111", "27d3bdc", "cfd1fa3", "16566ab"]
+HOOK_COMMITS = ["27ad88b", "955c941", "4436111", "27d3bdc", "cfd1fa3", "16566ab", "69a0f58", "1bdaa91"]
 NOTES = ("Machine-checked proof in Lean 4 over a hand-written executable model of go-jsonrpc, tied to /repo on every run by "
          "(a) facts regenerated from the Go source with obligations re-checked by Lean and (b) a correspondence harness that "
          "runs the real library and the model's executable definitions on the same cases / replays implementation traces "
@@ -206,6 +206,21 @@ CHECKS = [
   "design_ref": "DESIGN.md §6 C15",
   "note": TB + " The goroutine model is tied by skeleton facts and profile observation, not by trace replay.",
   "technique": "Lean 4 theorems (context derivation, ranking function + progress over the goroutine model) + regenerated skeleton facts + goroutine-profile observation + hook-trace inclusion"},
+ {"property_id": "C17",
+  "text": "Theorems over a timed model of the two detectors of one connection (read deadline, main-loop idle timer) for every timeout T, "
+          "activity gap G and local latency E and every interleaving of activity / renewal / re-arm / local traffic / time: if G + E < T then on "
+          "every run without silence both detectors stay ahead of the clock and neither failure is ever enabled (calls of any duration and "
+          "idle periods of any length are just such runs); on EVERY run, once the peer fell silent at t0 the connection is given up no later "
+          "than t0 + T + 2E (time cannot pass that point otherwise), because the read deadline is renewed only against peer activity — "
+          "local traffic re-arms only the idle timer. Tie: regenerated skeletons (setupPings, resetReadDeadline, nextMessage, "
+          "deadlineResetReader.Read, handleWsConn) and constants + timed scenarios over (ping, timeout) pairs x the server's ping setting "
+          "{default 5 s, off, equal} with a call lasting 3 timeouts and idle gaps (exactly one connection may be accepted) and blackhole runs "
+          "(idle / during a call / under local traffic) whose pending call must fail with the typed connection error and whose redial must "
+          "start within 4 timeouts; the client connection's timestamped hook trace (activity, renewals, re-arms, read failures, timer firings) "
+          "is replayed through the model's acceptor: no failure before its armed deadline, no renewal without an activity to consume.",
+  "design_ref": "DESIGN.md §6 C17",
+  "note": TB + " PARTIAL: G and E are environment assumptions; wall-clock behaviour is sampled by the scenarios, not proved.",
+  "technique": "Lean 4 theorems (two invariants by induction over timed events) + regenerated skeleton facts + timed hook-trace acceptance + scenario monitors"},
 ]
 
 _PENDING = "check under construction in this round (see DESIGN.md §13 build order); not claimed until its theorem file, tie and unchanged-tree sweep exist"
